@@ -996,7 +996,7 @@ class Tensor:
         return _reduce('mean', self, dim, keepdim)
 
     def prod(self, dim=None, keepdim=False):
-        raise Unsupported('prod')
+        return _reduce('prod', self, dim, keepdim)
 
     def amax(self, dim=None, keepdim=False):
         return _reduce('bmax', self, dim, keepdim)
@@ -1034,7 +1034,7 @@ class Tensor:
         return _ValuesIndices(_scan('bmin', self, dim), None)
 
     def cumprod(self, dim):
-        raise Unsupported('cumprod')
+        return _scan('prod', self, dim)
 
     def diff(self, n=1, dim=-1, prepend=None, append=None):
         if n != 1:
@@ -1285,8 +1285,8 @@ def _ew1(op, a, out=None, floatout=False, defined=None):
 def _emit_defined(shape, goal_at):
     """Record `for all idx in shape: goal` as a definedness side obligation with fresh index vars."""
     c = Ctx.current
-    if c is None:
-        return
+    if c is None or getattr(c, 'lazy_defined', False):
+        return          # lazy mode: definedness is checked post hoc, guard-aware, on the result term (terms.partial_ops)
     idx = tuple(c.fresh('d', 'I') for _ in shape)
     rng = tm.and_(*[tm.and_(tm.le(tm.IZERO, i), tm.lt(i, ti(s))) for i, s in zip(idx, shape)])
     kg = goal_at(idx)
@@ -1409,7 +1409,7 @@ def _reduce(kind, t, dim, keepdim):
                     n = tm.mul(n, tm.toreal(ti(sh[k])))
                 acc = tm.div(tm.toreal(acc), n)
             return acc
-        if kind in ('bmax', 'bmin'):
+        if kind in ('bmax', 'bmin', 'prod'):
             acc = body
             for k in reversed(dims):
                 acc = tm.big(kind, bvs[k], tm.IZERO, ti(sh[k]), acc)
@@ -1659,6 +1659,29 @@ def _advanced(t, adv):
 def _setitem(t, key, value):
     if not isinstance(key, tuple):
         key = (key,)
+    if len(key) == 1 and isinstance(key[0], Tensor) and key[0].dtype.cat == 0:
+        mask = key[0]
+        shape = _bcast_shapes([t._shape, mask._shape])
+        if len(shape) != len(t._shape) or not _all(same_int(a_, b_) for a_, b_ in zip(shape, t._shape)):
+            raise Unsupported('boolean mask assignment with a mask larger than the tensor')
+        val = as_tensor_like(value, t)
+        if val.numel_static() != 1:
+            raise Unsupported('boolean mask assignment of a non-scalar')
+        vt = _conv(val.dtype, t.dtype)(val._as_scalar_term())
+        rm = _bcast_reader(mask, t._shape)
+        if t._inv is False:
+            raise TorchRuntimeError('in-place write through an expanded view')
+        st = t.storage
+        old = st.fn
+        inv = t._inv
+        if inv is None:
+            st.write(lambda b: tm.ite(_truth(rm(b)), vt, old(b)), 'masked setitem')
+        else:
+            def newfn(b):
+                cnd, v_ = inv(b)
+                return tm.ite(tm.and_(cnd, _truth(rm(v_))), vt, old(b))
+            st.write(newfn, 'masked setitem')
+        return
     if _any(isinstance(k, Tensor) and k.dtype.cat == 0 for k in key):
         raise Unsupported('boolean mask assignment')
     if _any(isinstance(k, (list,)) or (isinstance(k, Tensor) and len(k._shape) > 0) for k in key):
